@@ -944,6 +944,9 @@ pub fn run(run: &'static Run) {
             enumerate::strings(&toks, git_token_len + 1, git_token_len + 1, |s| {
                 if seen.insert(vkit::hash_of(s)) {
                     for symlink in [false, true] {
+                        if symlink && !is_modules_family(s) {
+                            continue;
+                        }
                         for ntfs in [false, true] {
                             for hfs in [false, true] {
                                 emit(Case { comp: B(s.to_vec()), pos: 0, symlink, ntfs, hfs });
